@@ -965,8 +965,9 @@ HMCIstaccess(accrec_t *access_rec, /* IN: access record to fill in */
           if (( c_sp_header = (uint8 *) calloc(info->sp_tag_header_len,1))==NULL)
               HGOTO_ERROR(DFE_NOSPACE, FAIL);
 #endif
-        /* first read special header in */
-        if (Hread(dd_aid, info->sp_tag_header_len, c_sp_header) == FAIL)
+        /* first read special header in; a header that is not completely
+           there (e.g. its write failed half way) is not decoded */
+        if (Hread(dd_aid, info->sp_tag_header_len, c_sp_header) != info->sp_tag_header_len)
             HGOTO_ERROR(DFE_READERROR, FAIL);
 
         /* decode first special element header  */
@@ -992,6 +993,12 @@ HMCIstaccess(accrec_t *access_rec, /* IN: access record to fill in */
             UINT16DECODE(p, info->sp_ref);     /* 2 bytes */
             INT32DECODE(p, info->ndims);       /* 4 bytes */
                                                /* = 29 bytes */
+            /* the dimension records must lie inside the header that was read,
+               and the sizes are divided by later on */
+            if (info->ndims <= 0 || info->ndims > (info->sp_tag_header_len - 29) / 12 ||
+                info->chunk_size <= 0 || info->nt_size <= 0)
+                HGOTO_ERROR(DFE_RANGE, FAIL);
+
             /* create dimension, seek_block and seek_pos arrays
                given number of dims */
             if (create_dim_recs(&(info->ddims), &(info->seek_chunk_indices), &(info->seek_pos_chunk),
@@ -1006,6 +1013,8 @@ HMCIstaccess(accrec_t *access_rec, /* IN: access record to fill in */
                 INT32DECODE(p, (info->ddims[j].dim_length));   /* 4 bytes */
                 INT32DECODE(p, (info->ddims[j].chunk_length)); /* 4 bytes */
                                                                /* = 12 bytes */
+                if (info->ddims[j].chunk_length <= 0 || info->ddims[j].dim_length < 0)
+                    HGOTO_ERROR(DFE_RANGE, FAIL);
 
                 /* check 'flag' and decode settings */
                 info->ddims[j].distrib_type = (int32)(0xff & info->ddims[j].flag);
